@@ -25,6 +25,8 @@ fn main() {
     "c12worker" => vh::engines::c12::worker(&args[2..]),
     "c13" => vh::engines::c13::run(),
     "c17" => vh::engines::c17::run(),
+    "c18" => vh::engines::c18::run(),
+    "c18server" => vh::engines::c18::serve(&args[2..]),
     "c19" => vh::engines::c19::run(),
     "c19worker" => vh::engines::c19::worker(&args[2..]),
     "c14" => vh::engines::c14::run(),
